@@ -16,7 +16,7 @@ RULE = ("random problems (constraints + objectives, located specifications so th
         "self-localizing located constraint that passes + a windowed constraint needing a random local search); "
         "non-trivial = the solve consumed random numbers or changed the sequence; distinct by JSON text")
 HASHSEEDS = {"quick": ["0", "1", "7", "12345"], "thorough": ["0", "1", "2", "7", "99", "12345", "4294967295", "random"]}
-MODES = ["fresh", "reversed", "twice", "shared_objects", "after_failure"]
+MODES = ["fresh", "reversed", "twice", "shared_objects", "after_failure", "sibling_first"]
 
 # audited places where a set (or anything whose order is hash-dependent) is iterated / indexed in the
 # anchored files, with the reason the result does not depend on the order
@@ -156,6 +156,24 @@ def gen_outside_family(rng):
     return dict(seq=seq, constraints=tuple(cs), objectives=(), cfg=cfg, np_seed=rng.randint(0, 10**6))
 
 
+def gen_uniquify_family(rng):
+    """k-mer uniqueness with seeded repeats (forward and reverse-complement copies)"""
+    from .problems import kw
+    from .specs import rdna, rcs
+    n = rng.choice([30, 36, 45])
+    s = list(rdna(rng, n))
+    k = rng.choice([4, 5, 6])
+    for _ in range(rng.randint(1, 3)):
+        i, j = rng.randint(0, n - k), rng.randint(0, n - k)
+        w = "".join(s[i:i + k])
+        s[j:j + k] = list(w if rng.random() < 0.5 else rcs(w))
+    cs = [("UniquifyAllKmers", kw(k=k, include_reverse_complement=rng.random() < 0.5, location=None))]
+    if rng.random() < 0.5:
+        cs.append(("AvoidPattern", kw(pattern=rng.choice(["AA", "CG", "GC"]), location=None)))
+    cfg = dict(threshold=rng.choice([0, 50, 10000]), max_iters=60, mutations=rng.choice([1, 2]), extensions=(0, 5), stagnation=None)
+    return dict(seq="".join(s), constraints=tuple(cs), objectives=(), cfg=cfg, np_seed=rng.randint(0, 10**6))
+
+
 def run_workers(ps, tier):
     tmp = tempfile.mkdtemp(prefix="verif_c05_")
     pfile = os.path.join(tmp, "problems.json")
@@ -202,6 +220,8 @@ def run(chk):
         ps.append(gen_shared_family(chk.rng))
     while len(ps) < N // 2:
         ps.append(gen_outside_family(chk.rng))
+    while len(ps) < N // 2 + N // 6:
+        ps.append(gen_uniquify_family(chk.rng))
     while len(ps) < N:
         p = problems.gen_problem(chk.rng, with_objectives=chk.rng.random() < 0.6, allow_custom=True,
                                  custom_kinds=problems.SOUND_CUSTOM)
